@@ -163,6 +163,13 @@ func (fr *oFrame) builtinCall(call *ast.CallExpr) (oval, bool) {
 		}
 		copy(arr[s.length():], add)
 		return oSlice{typ: s.typ, arr: &arr, lo: 0, hi: n, capEnd: n}, true
+	case "panic":
+		msg := "panic"
+		if len(call.Args) == 1 {
+			msg = src(call.Args[0])
+		}
+		fr.abort("panic: %s at %s", msg, fr.it.p.Position(call.Pos()))
+		return oTop{"panic"}, true
 	case "copy":
 		d, ok1 := fr.eval(call.Args[0]).(oSlice)
 		sv := fr.eval(call.Args[1])
